@@ -14,6 +14,7 @@ RULE = ("notification descriptors of every recognised type (picture set/delete, 
         "stanzas below [axolotl control]? + parallel(getProtocolLayers(flags)) for all 16 module selections; the stanzas sent back down are "
         "compared with the Lean model and the oracle checks exactly one acknowledgement / receipt / pong echoing id, type, sender, participant. "
         "distinct = distinct (descriptor, flags, encryption).")
+RULE += (' The relevant stanzas also with an unknown element before / after their own children.')
 ASSUMPTIONS = c06.ASSUMPTIONS + ["a picture notification that is neither set nor delete is rejected with an error by design (excluded by the property)"]
 
 
@@ -42,6 +43,11 @@ def cases(chk):
     # the same stanza 2-4 times under the same id on the same stack: every occurrence is acknowledged
     for d in [x for x in c06.SUPPORTED if _relevant(x) and x["tag"] in ("iq", "call", "notification")]:
         yield "recv", {"d": d, "flags": r.choice(c06.FLAGSETS), "enc": r.choice([0, 1]), "repeat": r.choice([2, 3, 4])}
+    # an element the library does not know before / after the stanza's own children: what must be answered, and how, does not change
+    for d in c06.SUPPORTED:
+        if _relevant(d):
+            for k in ("lead", "trail"):
+                yield "recv", {"d": dict(d, **{k: 1}), "flags": "1111", "enc": r.choice([0, 1])}
     n = 0
     while n < chk.scale(800, 20000):
         d = c06.rand_desc(r)
